@@ -581,11 +581,11 @@ def _cls(*parts):
     return '_'.join(p.replace('.', '_') for p in parts)
 
 
-def _ref_src(base, ref, spec):
+def _ref_src(base, ref, spec, mod='bot'):
     full, lvl, sv, val = ref
     y = spec.by[full]
     fac = f'{base}.{y.pkg}.{y.kind}'
-    impl = f'{base}.{y.pkg}.bot.{_cls("Alg", y.name)}()'
+    impl = f'{base}.{y.pkg}.{mod}.{_cls("Alg", y.name)}()'
     if lvl == 'alg':
         return f'dawgie.ALG_REF({fac}, {impl})'
     if lvl == 'sv':
@@ -593,18 +593,21 @@ def _ref_src(base, ref, spec):
     return f'(lambda i: dawgie.V_REF({fac}, i, i.sv_as_dict()[{sv!r}], {val!r}))({impl})'
 
 
-def package_sources(spec, pkg):
-    """(source of <pkg>/__init__.py, source of <pkg>/bot.py) for one package of the spec"""
+def package_sources(spec, pkg, style='explicit'):
+    """(source of <pkg>/__init__.py, source of <pkg>/bot.py) for one package of the spec.
+    style 'explicit': factory functions in __init__.py and bots extending the deprecated dawgie.Task family;
+    style 'auto': no factories and no bots - the classes are found through __init_subclass__ (dawgie.base pattern)"""
     base = spec.base
+    mod = 'bot' if style == 'explicit' else 'algs'
     algs = [a for a in spec.algs if a.pkg == pkg]
     kinds = sorted({a.kind for a in algs})
-    init = ['import dawgie', f'import {base}.{pkg}.bot', '', '']
+    init = ['import dawgie', f'import {base}.{pkg}.bot', '', ''] if style == 'explicit' else ['"""auto-registered package"""', '']
     sig = {'task': "prefix, ps_hint=0, runid=-1, target='__none__'", 'analysis': 'prefix, ps_hint=0, runid=-1', 'regress': "prefix, ps_hint=0, target='__none__'"}
     call = {'task': 'Actor(prefix, ps_hint, runid, target)', 'analysis': 'Agent(prefix, ps_hint, runid)', 'regress': 'Regr(prefix, ps_hint, target)'}
-    for k in kinds:
+    for k in kinds if style == 'explicit' else []:
         init += [f'def {k}({sig[k]}):', f'    return {base}.{pkg}.bot.{call[k]}', '', '']
     evs = [e for e in spec.events if spec.by[e[0]].pkg == pkg]
-    if evs:
+    if evs and style == 'explicit':
         init += ['def events():', '    import datetime', '    return [']
         for full, k, arg, tod in evs:
             a = spec.by[full]
@@ -639,18 +642,18 @@ def package_sources(spec, pkg):
         for meth, refs in ((dep[a.kind], a.inputs), ('feedback', a.feedback)):
             bot += [f'    def {meth}(self):']
             for o in sorted({spec.by[r[0]].pkg for r in refs}):
-                bot += [f'        import {base}.{o}', f'        import {base}.{o}.bot']
-            bot += ['        return [' + ', '.join(_ref_src(base, r, spec) for r in refs) + ']', '']
+                bot += [f'        import {base}.{o}', f'        import {base}.{o}.{mod}']
+            bot += ['        return [' + ', '.join(_ref_src(base, r, spec, mod) for r in refs) + ']', '']
         bot += [f'    def run(self, {run_sig[a.kind]}):', '        return None', '',
                 '    def where(self):', f'        return dawgie.Distribution.{getattr(a, "where", "cluster")}', '', '']
     for kind, bcls, parent in (('task', 'Actor', 'dawgie.Task'), ('analysis', 'Agent', 'dawgie.Analysis'), ('regress', 'Regr', 'dawgie.Regress')):
-        if kind in kinds:
+        if kind in kinds and style == 'explicit':
             bot += [f'class {bcls}({parent}):', '    def list(self):',
                     '        return [' + ', '.join(_cls('Alg', a.name) + '()' for a in algs if a.kind == kind) + ']', '', '']
     return '\n'.join(init), '\n'.join(bot)
 
 
-def write_disk(spec, root, only=None):
+def write_disk(spec, root, only=None, style='explicit'):
     """write the engine as source packages under <root>/<base>/...; `only` = packages to (re)write"""
     import os
 
@@ -665,8 +668,8 @@ def write_disk(spec, root, only=None):
             continue
         d = os.path.join(top, pkg)
         os.makedirs(d, exist_ok=True)
-        init, bot = package_sources(spec, pkg)
-        files = [('__init__.py', init), ('bot.py', bot)] + [(f'{h}.py', f'NAME = {h!r}\n') for h in spec.helpers.get(pkg, [])]
+        init, bot = package_sources(spec, pkg, style)
+        files = [('__init__.py', init), ('bot.py' if style == 'explicit' else 'algs.py', bot)] + [(f'{h}.py', f'NAME = {h!r}\n') for h in spec.helpers.get(pkg, [])]
         for name, src in files:
             fp = os.path.join(d, name)
             old = open(fp).read() if os.path.exists(fp) else None
